@@ -34,7 +34,9 @@ void checkList(Case& c, L& l, const std::deque<int>& m, unsigned CS, bool tracke
     // use of the concurrent list pushes and pops at the same end as well, but
     // only "front() is an element" is demanded there)
     ++c.resultChecks;
+    c.checking("front");
     int f = val(l.front());
+    c.checking(nullptr);
     if (Conc) {
       if (std::find(m.begin(), m.end(), f) == m.end())
         c.fail("front-not-an-element", J().kv("front", f));
@@ -124,8 +126,11 @@ void listT(Case& c, bool useFront, unsigned nops) {
         // pop on any state (empty -> false)
         int f = 0;
         bool popped;
-        if (Conc && !m.empty() && useFront)
+        if (Conc && !m.empty() && useFront) {
+          c.checking("front");
           f = val(l.front());
+          c.checking(nullptr);
+        }
         if (rng.below(3)) {
           c.op("pop_front(heap)", NOARG, NOARG, "pop_front");
           popped = l.pop_front(heap);
@@ -184,7 +189,7 @@ template <bool Conc>
 void runList(Case& c, const char* name) {
   unsigned cs   = c.rng.pick({1u, 2u, 2u, 3u, 3u, 4u, 4u, 16u, 64u});
   bool tracked  = c.rng.below(3) != 0;
-  bool useFront = c.rng.below(VERIF_ASAN ? 32 : 4) == 0; // front() is part of the per-step checks (rarer where a failed assert costs a process)
+  bool useFront = c.rng.below(VERIF_ASAN ? 64 : 16) == 0; // front() is part of the per-step checks (rarer where a failed assert costs a process)
   unsigned nops = c.pickOps();
   std::string cfg = "cs" + std::to_string(cs) + (tracked ? "|tracked" : "|pod") + (useFront ? "|front" : "");
   c.begin(name, cfg,
